@@ -589,8 +589,8 @@ def run(ctx):
         ctx.count("corpus")
         c.pop("_file", None)
         check_case(ctx, c["case"] if "case" in c else c, drv)
-    plan = [("main", 230 if quick else 4200), ("twopass", 60 if quick else 700), ("param-start", 5 if quick else 30),
-            ("twopass-neg", 5 if quick else 30)]
+    plan = [("main", 400 if quick else 5000), ("twopass", 120 if quick else 1200), ("param-start", 10 if quick else 60),
+            ("twopass-neg", 20 if quick else 200)]
     for stream, n in plan:
         for i in range(n):
             if ctx.time_left() < 0:
